@@ -31,7 +31,7 @@ func TestMain(m *testing.M) {
 var binDump = regexp.MustCompile(`^[0-9a-f]{64}\.bin$`)
 
 func cleanup() {
-	if theEnv != nil {
+	if theEnv != nil && !wedged.Load() {
 		theEnv.close()
 	}
 	if fs, err := os.ReadDir("."); err == nil {
